@@ -51,12 +51,14 @@ def run(ctx):
                 'DEFAULT equal to default, explicitly tagged primitives) x (encoder, decoder) in {(DER,DER),(DER,CER),(DER,BER),(CER,CER),(CER,BER)}; '
                 'agreement of the three decoders on DER, CER and BER-only (indefinite, chunked) encodings of the same value')
     cases = codec.gen_cases(ctx, ctx.n(100, 2000), depth=3, any_der=True) + targeted(ctx)
+    ctx.stats['constrained-leaf round trips'] += codec.constrained_leaf_roundtrips(ctx, codecs=('CER', 'DER'))
     cases += codec.leaf_boundary_cases(ctx, every=3 if ctx.tier == 'quick' else 1)
     cases += codec.presence_grid_cases(ctx, every=2 if ctx.tier == 'quick' else 1)
     cases += codec.long_string_cases(ctx, every=2 if ctx.tier == 'quick' else 1)           # zeros / data around the CER segment boundaries
     cases += codec.empty_member_grid_cases(ctx, every=3 if ctx.tier == 'quick' else 1)   # empty / non-empty constructed members around OPTIONAL ones
     cases += codec.tag_grid_cases(ctx, every=2 if ctx.tier == 'quick' else 1)            # every kind under every tagging shape of depth 0..2
     cases += codec.set_order_grid_cases(ctx, every=12 if ctx.tier == 'quick' else 1)     # every ordered pair of differently tagged SET members
+    cases += codec.long_tag_set_order_cases(ctx) + codec.mixed_form_sibling_cases(ctx) + codec.default_constructed_cases(ctx)   # round 7: long-form tag numbers of differing octet counts; long and short strings under the same tags; constructed DEFAULTs holding constructed members
     # SETs whose members are nested CHOICEs (untagged, or under an EXPLICIT tag of their own) with sibling tags in between
     from harness.props import c17 as _c17
     for T_, v_, _how in _c17.set_choice_cases(ctx, gen.Gen(ctx.rng), ctx.n(8, 150)):
